@@ -58,6 +58,7 @@ struct Hist {
     bool opWildEdit();
     bool opCopyOut();
     bool opReadModifyWrite();
+    bool opSelfFrame();
 
     // helpers
     Frame buildFrame(int deviation, std::string* devName, SFrame* intended, int forceSub = -1);
